@@ -171,7 +171,7 @@ def epoch_conversion(ct):
     return None
 
 
-def fields_written_as_stored(ctx, report, RULE='C11.R8', kinds=('ts',), modules=None,
+def fields_written_as_stored(ctx, report, RULE='C11.R8', kinds=('ts',), modules=None, what=('in place of attribute',),
                              title='timestamp fields: the composer hands the stored attribute to the primitive, which alone decides the sentinel'):
     """The primitives are exact (R1, R5), a field is exact only if the value of the attribute is what reaches them: a composer that
     writes ``CONSTANT if self.attr is None else self.attr`` never writes the sentinel the parser turns back into None (or writes a
@@ -192,7 +192,7 @@ def fields_written_as_stored(ctx, report, RULE='C11.R8', kinds=('ts',), modules=
             continue        # C01.R1 reports what it cannot derive
         n += sum(1 for a, b in cmpn.pairs if kinds is None or a.kind in kinds or b.kind in kinds)
         for d in cmpn.diffs:
-            if d.kind == 'binding' and 'in place of attribute' in d.detail and d.a is not None and d.b is not None and \
+            if d.kind == 'binding' and any(w in d.detail for w in what) and d.a is not None and d.b is not None and \
                     (kinds is None or d.a.kind in kinds or d.b.kind in kinds):
                 report.add(RULE, '%s@%s' % (c.construct, diff_key(d)), d.detail)
     report.count(RULE, n)
